@@ -31,6 +31,14 @@ func c04(c *q.Ctx) {
 		c.StoreIs(cb, "Ledger.meta", "proto.Clone(p0.meta)", 1, "the published meta is the one that was persisted")
 		c.Effect(cb, q.Eff{Spec: "Batch.Put", Arg: 0, Glob: "\"M\"", Why: "new meta staged in the same batch", Rule: "K10"})
 		c.Effect(cb, q.Eff{Spec: "Batch.Put", Arg: 1, Glob: "proto.Marshal(proto.Clone(p0.meta))#0", Why: "the staged meta is the edited clone", Rule: "K10"})
+		// branch heads: the new block becomes a head and its parent stops being one, whatever the position of the block
+		c.ArgIs(cb, "Ledger.updateBranchInfo", 1, "p1.Blockid", 1, "the confirmed block becomes a branch head")
+		c.ArgIs(cb, "Ledger.updateBranchInfo", 2, "p1.PreHash", 1, "its parent is retired as a branch head on every path (also when the block lands on a side branch)")
+		c.ArgIs(cb, "Ledger.updateBranchInfo", 3, "p1.Height", 1, "recorded with the block's height")
+		if ub := c.Fn(led + "(*Ledger).updateBranchInfo"); ub != nil {
+			c.Effect(ub, q.Eff{Spec: "Batch.Delete", Arg: 0, Glob: "append(\"ZI\",p2)", Exact: true, Why: "the retired head's record is deleted unconditionally", Rule: "K6"})
+			c.Effect(ub, q.Eff{Spec: "Batch.Put", Arg: 0, Glob: "append(\"ZI\",p1)", Why: "the new head's record is written", Rule: "K6"})
+		}
 		// every failing step rejects
 		for _, g := range []string{"Ledger.fetchBlock", "Ledger.saveBlock", "Ledger.handleFork", "Ledger.updateBranchInfo"} {
 			c.Gate(cb, g, succ, q.Opt{K1Only: true})
@@ -84,13 +92,7 @@ func c04(c *q.Ctx) {
 			c.Gate(hf, g, q.ToSuccess(), q.Opt{K1Only: true})
 		}
 	}
-	ct := c.Fn(led + "(*Ledger).correctTxsBlockid")
-	if ct != nil {
-		blk := "ledger.(*Ledger).queryBlock(p0,p1,true)#0"
-		c.Effect(ct, q.Eff{Spec: "Batch.Put", Arg: 0, Glob: "append(\"C\"," + blk + ".Transactions[].Txid)", Req: []q.Cond{{Canon: "bytes.Equal(" + blk + ".Transactions[].Blockid,p1)", Sense: false}}, Why: "a transaction mapped elsewhere is re-mapped", Rule: "K6"})
-		c.ArgIs(ct, "Batch.Put", -1, "p2", 1, "staged in the confirmation's batch, not written directly")
-		c.FieldStore(ct, "Transaction.Blockid", blk+".Transactions[]", "p1", "re-mapped to the new-trunk block")
-	}
+	txRemap(c)
 	sb := c.Fn(led + "(*Ledger).saveBlock")
 	if sb != nil {
 		keep := func(g q.Cond) bool { return strings.Contains(g.Canon, "p1.") }
@@ -129,5 +131,19 @@ func c04(c *q.Ctx) {
 		c.Effect(tr, q.Eff{Spec: "Batch.Put", Arg: 0, Glob: "append(\"B\"," + tip + ".Blockid)", Why: "and that header is persisted in the truncation's batch", Rule: "K6"})
 		c.Effect(tr, q.Eff{Spec: "Batch.Put", Arg: 1, Glob: "proto.Marshal(" + tip + ")#0", Why: "", Rule: "K6"})
 		c.Gate(tr, "Batch.Write", q.ToCall("LRUCache.Add"), q.Opt{})
+	}
+}
+
+// txRemap: when a trunk switch re-maps transactions, it reads the block from storage (not the block cache, whose
+// transaction objects already carry the id) and rewrites every row whose recorded block differs (shared by C04 and
+// C18: the snapshot walk takes a writer's height from that record).
+func txRemap(c *q.Ctx) {
+	const led = "bcs/ledger/xledger/ledger::"
+	ct := c.Fn(led + "(*Ledger).correctTxsBlockid")
+	if ct != nil {
+		blk := "ledger.(*Ledger).queryBlock(p0,p1,true)#0"
+		c.Effect(ct, q.Eff{Spec: "Batch.Put", Arg: 0, Glob: "append(\"C\"," + blk + ".Transactions[].Txid)", Req: []q.Cond{{Canon: "bytes.Equal(" + blk + ".Transactions[].Blockid,p1)", Sense: false}}, Why: "a transaction mapped elsewhere is re-mapped", Rule: "K6"})
+		c.ArgIs(ct, "Batch.Put", -1, "p2", 1, "staged in the confirmation's batch, not written directly")
+		c.FieldStore(ct, "Transaction.Blockid", blk+".Transactions[]", "p1", "re-mapped to the new-trunk block")
 	}
 }
